@@ -266,6 +266,9 @@ def make_two(fn):
         same_shape = coords[0].shape == coords[1].shape
 
         def classify():
+            if fn == 'xy_seq' and extra_desc['cartesian_grid'] and coords[0].ndim < 2:
+                # xy() treats 0-D/1-D x, y as the axes of a cartesian grid (outer product), xy_seq() as a list of points
+                return 'C08/xy_seq/cartesian_grid/x.ndim<2'
             if same_shape and coords[0].ndim != 1 and ravel_route_ok(lambda: recall([c.reshape(-1) for c in coords]), ref, rtol) \
                     and not (fn == 'xy_seq' and extra_desc['cartesian_grid']):
                 return f'C08/{fn}/x.ndim!=1'
@@ -489,7 +492,8 @@ def _run(ctx):
                  ('meshgrid-flag-off', X, Y, False), ('general-2d', rng.uniform(-1, 1, (M, N)), rng.uniform(-1, 1, (M, N)), False),
                  ('general-1d', rng.uniform(-1, 1, N), rng.uniform(-1, 1, N), False),
                  ('general-0d', np.asarray(rng.uniform(-1, 1)), np.asarray(rng.uniform(-1, 1)), False),
-                 ('general-3d', rng.uniform(-1, 1, (2, M, N)), rng.uniform(-1, 1, (2, M, N)), False)]
+                 ('general-3d', rng.uniform(-1, 1, (2, M, N)), rng.uniform(-1, 1, (2, M, N)), False),
+                 ('axes-1d(N),(M)', xv, yv, True), ('axes-1d-equal-length', xv, rng.uniform(-1, 1, N), True)]
         label, x, y, cart = grids[it % len(grids)]
         desc = {'wl': 'two-index', 'fn': 'xy_seq', 'mns': mns[:10], 'k': k, 'x': label, 'mode': mode, 'class': f'xy_seq:{label}'}
         ctx.case(desc, nontrivial=max(a + b for a, b in mns) >= 1)
